@@ -190,7 +190,16 @@ def regression_scenarios():
               'nbt': 2, 'nbv': 1, 'opt': {'kind': 'sgd', 'lr': 0.25},
               'train_script': [[[1, 2], [2, 0], [3, 1], [-1, 2]], [[0, 1], [1, 1], [2, -2], [3, 0]]],
               'valid_script': [[[2, 2], [1, 1], [0, 3], [1, -1]]], 'ops': [{'op': 'fit', 'max_epochs': 2, 'cbs': rec_cb}]}
-    return [('fixed-F9-spherical-variadic', f9, True), ('bundle-eq-param-index', bundle, True), ('reads-between-fits', reads, True)]
+    # closure optimisers on batches that carry autograd history (outputs of indexing, as ResampleGenerator / BatchGenerator /
+    # FilterGenerator produce them): one closure step per batch, several closure evaluations on the SAME batch
+    key = 'closure-optimiser/raises/generator-with-autograd-history'
+    graph = dict(reads, opt={'kind': 'script', 'lr': 0.25, 'counts': [2, 3, 2, 2]}, nbt=2, gen_kind='index', raise_key=key,
+                 ops=[{'op': 'fit', 'max_epochs': 2, 'cbs': rec_cb}])
+    real = [(f'fixed-closure-{g}-generator', dict(reads, opt={'kind': 'lbfgs', 'lr': 0.5, 'max_iter': 3}, gen_kind=g, raise_key=key,
+                                                 ops=[{'op': 'fit', 'max_epochs': 2, 'cbs': rec_cb}]), None)
+            for g in ('resample', 'batch', 'filter')]
+    return [('fixed-F9-spherical-variadic', f9, True), ('bundle-eq-param-index', bundle, True), ('reads-between-fits', reads, True),
+            ('fixed-closure-indexed-batches', graph, True)] + real
 
 
 def main():
@@ -216,7 +225,10 @@ def main():
                 trajectory_oracle(ck, sc, rec)
         ck.finish()
     for label, sc, exact in regression_scenarios():
-        camp.add(label, sc, exact)
+        if exact is None:
+            camp.add(label, sc, coq=False)          # real library generators (random points): oracle only
+        else:
+            camp.add(label, sc, exact)
     r = ck.rng('scenarios')
     n = 1260 if ck.thorough() else 84
     for i in range(n):
@@ -232,6 +244,9 @@ def main():
                                 between_actions=('get_internals', 'set_loss') if reads else (('set_loss',) if i % 5 == 0 else ()),
                                 lids=(0, 1) if reads else (0, 1, 0, 2, 3), max_epochs=(1, 4) if reads else (0, 5),
                                 nmetrics=(0, 2), variadic_spherical=(i % 3 != 0), sol_ops=reads, n_fits=(2, 4) if reads else (1, 4))
+            if sc['opt']['kind'] == 'script' and i % 2 == 0:
+                sc['gen_kind'] = 'index'            # batches with autograd history under a closure optimiser
+                sc['raise_key'] = 'closure-optimiser/raises/generator-with-autograd-history'
             rec = camp.add(f'exact#{i}', sc, exact=True)
         if rec and i % 3 == 0:
             trajectory_oracle(ck, sc, rec)
